@@ -376,6 +376,60 @@ func lengthAccounting(p *Prog, r *Report, rule string) {
 		}
 		r.Check(ok, rule, fnKey(enc)+": entry guard index + GetLength() > len(buffer)", p.pos(enc.Pos()), "error before any write", "the encoder does not refuse to write past the record buffer using the element's reported length", true)
 	}
+	// GetBuffer hands out a buffer it built earlier only when that buffer still has the record's length (or the record is a
+	// decoding one): elements can be added after a first serialization (spare slots, AddInfoElement), and a stale buffer
+	// would be shorter than the length the record reports
+	if f := p.Fn("(*pkg/entities.dataRecord).GetBuffer"); f != nil && len(f.Blocks) > 0 {
+		okCache, nCached := true, 0
+		wc := &absWalker{MaxPaths: 4096}
+		wc.OnInstr = func(st *absState, in ssa.Instruction) {
+			if _, ok := in.(*ssa.MakeSlice); ok {
+				st.Events = append(st.Events, absEvent{Kind: "make", In: in})
+			}
+		}
+		wc.OnEnd = func(st *absState, last ssa.Instruction) {
+			if _, ok := last.(*ssa.Return); !ok {
+				return
+			}
+			for _, e := range st.Events {
+				if e.Kind == "make" {
+					return
+				}
+			}
+			nCached++
+			justified := false
+			for _, cd := range st.Conds {
+				c := cd.If.Cond
+				pol := 0
+				for {
+					u, ok := c.(*ssa.UnOp)
+					if !ok || u.Op != token.NOT {
+						break
+					}
+					c, pol = u.X, 1-pol
+				}
+				if isFieldLoad(c, "pkg/entities.baseRecord.isDecoding") && cd.Succ == pol {
+					justified = true
+				}
+				for _, cf := range cmpForms(cd.If.Cond) {
+					if cf.Op != token.EQL || cf.Succ != cd.Succ {
+						continue
+					}
+					lv, isL := lenOfValue(cf.X)
+					if isL && isFieldLoad(lv, "pkg/entities.baseRecord.buffer") && isFieldLoad(cf.Y, "pkg/entities.baseRecord.len") {
+						justified = true
+					}
+				}
+			}
+			if !justified {
+				okCache = false
+			}
+		}
+		wc.walk(newAbsState(), f.Blocks[0], 0)
+		r.Check(okCache && nCached > 0 && !wc.Overflow, rule, fnKey(f)+": a buffer built earlier is reused only while it has the record's length", p.pos(f.Pos()),
+			"the early return is taken under len(d.buffer) == d.len (or for a decoding record)",
+			"the serialized buffer is cached under another condition (e.g. 'already built'): after elements are added to spare slots the record reports a length its buffer does not have, and the set / message lengths no longer equal the bytes sent", true)
+	}
 	// GetBuffer: make(len) ; index += GetLength
 	if f := p.Fn("(*pkg/entities.dataRecord).GetBuffer"); f != nil {
 		okMake, okAdv := false, false
